@@ -10,9 +10,11 @@ What is modelled:
 * `chunk`: the greedy packing of the bulk `Builder` (a node is closed when it holds `limit`
   entries; limit = `splitCount`), and `Tree`/`build`/`toList`: the tree of chunks built level by
   level, bottom up.
-NOT modelled (tied to the code by the correspondence run + direct oracles only): the byte layout
-(prefix compressed leaf nodes, tree node separators), the byte-size limit `maxNodeSize`,
-path-copying, node splitting and empty node removal inside `MergeAndSave`, `RangeFrac`.
+This file is the MAP LEVEL only. The structure is modelled in `BtreeTree.lean` (abstract B+-tree,
+separators, lookup by descent, the bulk Builder), `BtreeMerge.lean` (`MergeAndSave` with node
+splits and empty-node removal; proved to refine `applyBatch` here), `BtreeCodec.lean` (leaf node
+bytes), `BtreeLeaf.lean` (leaf packing by byte size), `BtreeRangeFrac.lean` (`RangeFrac`).
+`chunk`/`Tree`/`build` below are the older count-only bulk build (kept; superseded by `bulkBuild`).
 -/
 import Gsu.Util.Proto
 namespace Gsu.Btree
